@@ -2,24 +2,37 @@
 (* P-TRACE for C08: validates recorded writer runs against RenderPipeline.
 
    IOEnv.TRACE_FILE is a JSON array of runs
-       [n |-> articles, den |-> <<word ids denoted by Collection.tla>>, req |-> BOOLEAN,
-        ev |-> << [s |-> stage name, a |-> article index or 0] >>,
+       [n |-> articles, den |-> <<word ids the verdict requires>>, req |-> BOOLEAN,
+        ev |-> << [s |-> event name, a |-> article index or 0] >>,
         found |-> <<word ids found in the output>>, ok |-> BOOLEAN]
-   One behaviour per run (tid chosen in TraceInit).  Every recorded event must be a step the
-   stage machine allows; the run is
-       accepted    when all events are consumed and the machine is in "judged",
-       rejected    at the first event (index l) that no action of RenderPipeline allows,
-       incomplete  when the events end before the verdict (the writer stopped early).
-   Rejection is an explicit terminal step (enabled exactly when the spec's step is not), so
-   one TLC run judges all recorded runs; deadlock checking stays on and a deadlock would be a
-   defect of this module.  The verdicts are printed as JSON for the harness, which only names
-   what was rejected. *)
+   One behaviour per run (tid chosen in TraceInit).
+
+   The VERDICT is about the output (what the statement of C08 claims): the archive opens,
+   the writer returns without raising, without a second (fail-safe) pass and without hanging,
+   an output file exists, it is readable (ok) and contains the required words (Judge).  The
+   events that decide it are observed at the caller's side of the public entry points
+   (OpenArchive, SecondPass / Fail, Raise, Hang, Crash, Output, Judge); those that the
+   pipeline has no action for (SecondPass, Fail, Raise, Hang, Crash) or whose guard fails
+   (Judge with words missing / unreadable output) reject the run.
+
+   The per-article STAGE events (Expand, Parse, Clean, Layout) come from wrappers around
+   internal seams of the code; a refactoring can move a seam without changing any output.
+   They are therefore matched against the stage machine as OBSERVATIONS: an event that is a
+   step of RenderPipeline is taken; one that is not (missing predecessor, repetition) is
+   skipped and the run is flagged `deviated`; Output of a run whose articles were not all
+   seen in stage Layout is taken with the flag set as well.  The flag is reported (evidence,
+   sanity check of the seams) and never decides a verdict.
+
+   A run is  accepted  when all events are consumed and the machine is in "judged",
+   rejected  at the first verdict event (index l) the pipeline does not allow,
+   incomplete  when the events end before the verdict.  Rejection is an explicit terminal
+   step, so one TLC run judges all recorded runs; deadlock checking stays on. *)
 EXTENDS RenderPipeline, Sequences, TLC, Json, IOUtils
 
 Runs == JsonDeserialize(IOEnv.TRACE_FILE)
 
-VARIABLES tid, l, verdict
-tvars == <<n, denoted, req, st, phase, found, good, tid, l, verdict>>
+VARIABLES tid, l, verdict, deviated
+tvars == <<n, denoted, req, st, phase, found, good, tid, l, verdict, deviated>>
 
 ToSet(s) == {s[k] : k \in DOMAIN s}
 Run == Runs[tid]
@@ -28,6 +41,7 @@ Ev  == Run.ev[l]
 TraceInit == /\ tid \in 1..Len(Runs)
              /\ l = 1
              /\ verdict = "running"
+             /\ deviated = FALSE
              /\ n = Runs[tid].n
              /\ denoted = ToSet(Runs[tid].den)
              /\ req = Runs[tid].req
@@ -36,28 +50,40 @@ TraceInit == /\ tid \in 1..Len(Runs)
              /\ found = {}
              /\ good = FALSE
 
-SpecStep ==
-  \/ Ev.s = "OpenArchive" /\ OpenArchive
+StageNames == {"Expand", "Parse", "Clean", "Layout"}
+StageStep ==
   \/ Ev.s = "Expand" /\ Expand(Ev.a)
   \/ Ev.s = "Parse"  /\ Parse(Ev.a)
   \/ Ev.s = "Clean"  /\ Clean(Ev.a)
   \/ Ev.s = "Layout" /\ Layout(Ev.a)
-  \/ Ev.s = "Output" /\ Output
-  \/ Ev.s = "Judge"  /\ Judge(ToSet(Run.found), Run.ok)
+AllLaidOut == \A i \in 1..n : st[i] = LastStage
+\* Output as observed: the file exists; whether every article was seen in every stage is recorded
+ObservedOutput == /\ phase = "open"
+                  /\ phase' = "output"
+                  /\ UNCHANGED <<n, denoted, req, st, found, good>>
+VerdictStep ==
+  \/ Ev.s = "OpenArchive" /\ OpenArchive /\ UNCHANGED deviated
+  \/ Ev.s = "Output" /\ ObservedOutput /\ deviated' = (deviated \/ ~AllLaidOut)
+  \/ Ev.s = "Judge"  /\ Judge(ToSet(Run.found), Run.ok) /\ UNCHANGED deviated
 
 Step == /\ verdict = "running" /\ l <= Len(Run.ev)
-        /\ SpecStep
+        /\ \/ VerdictStep
+           \/ Ev.s \in StageNames /\ StageStep /\ UNCHANGED deviated
+           \/ Ev.s \in StageNames /\ ~ENABLED StageStep          \* an observation the machine cannot place
+              /\ deviated' = TRUE
+              /\ UNCHANGED <<n, denoted, req, st, phase, found, good>>
         /\ l' = l + 1
         /\ UNCHANGED <<tid, verdict>>
 
 Reject == /\ verdict = "running" /\ l <= Len(Run.ev)
-          /\ ~ENABLED SpecStep
+          /\ Ev.s \notin StageNames
+          /\ ~ENABLED VerdictStep
           /\ verdict' = "rejected"
-          /\ UNCHANGED <<n, denoted, req, st, phase, found, good, tid, l>>
+          /\ UNCHANGED <<n, denoted, req, st, phase, found, good, tid, l, deviated>>
 
 Finish == /\ verdict = "running" /\ l > Len(Run.ev)
           /\ verdict' = IF phase = "judged" THEN "accepted" ELSE "incomplete"
-          /\ UNCHANGED <<n, denoted, req, st, phase, found, good, tid, l>>
+          /\ UNCHANGED <<n, denoted, req, st, phase, found, good, tid, l, deviated>>
 
 Stutter == verdict # "running" /\ UNCHANGED tvars
 
@@ -67,14 +93,14 @@ TraceSpec == TraceInit /\ [][TraceNext]_tvars
 \* an accepted run satisfies the obligations of C08 (checked on every state of every run)
 AcceptedIsComplete ==
   verdict = "accepted" => /\ phase = "judged" /\ good
-                          /\ \A i \in 1..n : st[i] = LastStage
+                          /\ (~deviated => \A i \in 1..n : st[i] = LastStage)
                           /\ (req => denoted \subseteq found)
 
 Missing == IF l <= Len(Run.ev) /\ Ev.s = "Judge" THEN denoted \ ToSet(Run.found) ELSE {}
 Lagging == {i \in 1..n : st[i] < LastStage}
 EmitVerdict ==
   verdict # "running" =>
-     PrintT("@@" \o ToJson([tid |-> tid, verdict |-> verdict, l |-> l, phase |-> phase,
+     PrintT("@@" \o ToJson([tid |-> tid, verdict |-> verdict, l |-> l, phase |-> phase, deviated |-> deviated,
                             missing |-> Missing, lagging |-> Lagging,
                             stages |-> [i \in 1..n |-> st[i]]]))
 =============================================================================
